@@ -177,6 +177,65 @@ Proof.
   split; vm_compute; reflexivity.
 Qed.
 
+(* ---------- example with zero-page parents (adjust_zero_pages) ----------
+   A(0,0)[ B(0,0)[ B1 -> page 4 ], C -> page 3 ],  D(0,7)[ E -> page 3 ] *)
+Definition zop (t : N) (pg : oid) (par : option N) : bop :=
+  {| op_title := [t]; op_format := 0; op_color := no_color; op_page := pg; op_parent := par |}.
+Definition zero_ops : list bop :=
+  [ zop 65 (0, 0) None; zop 66 (0, 0) (Some 1); zop 67 (3, 0) (Some 1); zop 98 (4, 0) (Some 2);
+    zop 68 (0, 7) None; zop 69 (3, 0) (Some 5) ].
+Definition zero_forest : list itree := forest_of_ops (map sop_of zero_ops).
+Definition zero_adjusted : bdoc :=
+  match adjust_zero_pages 7 (add_all (fresh_bdoc ex_doc) zero_ops) with
+  | OOk b1 => b1
+  | _ => fresh_bdoc ex_doc
+  end.
+Definition zero_final : doc :=
+  match build_outline 7 zero_adjusted with
+  | OOk (_, b') => attach (base b') (1, 0) (5, 0)
+  | _ => ex_doc
+  end.
+Fixpoint tree_pages (t : itree) : list (N * oid) :=
+  match t with INode i d ks => (i, b_page d) :: flat_map tree_pages ks end.
+
+Lemma zero_example :
+  let b := add_all (fresh_bdoc ex_doc) zero_ops in
+  adjust_zero_pages (default_fuel b) b = OOk zero_adjusted /\
+  (* the pages in the table are those of the specification [fix_tree] *)
+  (forall i p, In (i, p) (flat_map tree_pages (map fix_tree zero_forest)) <->
+               exists bm, tbl_get (bookmark_table zero_adjusted) i = Some bm /\ bm_page bm = p) /\
+  flat_map tree_pages (map fix_tree zero_forest) = [(1, (4, 0)); (2, (4, 0)); (4, (4, 0)); (3, (3, 0)); (5, (3, 0)); (6, (3, 0))] /\
+  bookmarks zero_adjusted = bookmarks b /\
+  (exists b', build_outline (default_fuel zero_adjusted) zero_adjusted = OOk (Some (5, 0), b') /\
+              attach (base b') (1, 0) (5, 0) = zero_final) /\
+  get_toc 6 zero_final = TOk (expected_toc zero_final (map fix_tree zero_forest)) 0 /\
+  map te_page (expected_toc zero_final (map fix_tree zero_forest)) = [2; 2; 2; 1; 1; 1] /\
+  map te_level (expected_toc zero_final (map fix_tree zero_forest)) = [1; 2; 3; 2; 1; 2].
+Proof.
+  cbv zeta.
+  split; [vm_compute; reflexivity|].
+  split.
+  { assert (E : flat_map tree_pages (map fix_tree zero_forest)
+                = [(1, (4, 0)); (2, (4, 0)); (4, (4, 0)); (3, (3, 0)); (5, (3, 0)); (6, (3, 0))]) by (vm_compute; reflexivity).
+    rewrite E. intros i p. split.
+    - intro H. repeat (destruct H as [H|H]; [inversion H; subst; eexists; split; vm_compute; reflexivity|]). destruct H.
+    - intros [bm [Hg Hp]].
+      destruct (N.eq_dec i 1) as [->|]; [vm_compute in Hg; inversion Hg; subst; vm_compute; tauto|].
+      destruct (N.eq_dec i 2) as [->|]; [vm_compute in Hg; inversion Hg; subst; vm_compute; tauto|].
+      destruct (N.eq_dec i 3) as [->|]; [vm_compute in Hg; inversion Hg; subst; vm_compute; tauto|].
+      destruct (N.eq_dec i 4) as [->|]; [vm_compute in Hg; inversion Hg; subst; vm_compute; tauto|].
+      destruct (N.eq_dec i 5) as [->|]; [vm_compute in Hg; inversion Hg; subst; vm_compute; tauto|].
+      destruct (N.eq_dec i 6) as [->|]; [vm_compute in Hg; inversion Hg; subst; vm_compute; tauto|].
+      exfalso. revert Hg. unfold zero_adjusted. vm_compute (adjust_zero_pages _ _). cbn [bookmark_table tbl_get].
+      repeat match goal with |- context [(?a =? i)] => replace (a =? i) with false by (symmetry; apply N.eqb_neq; lia) end.
+      discriminate. }
+  split; [vm_compute; reflexivity|].
+  split; [vm_compute; reflexivity|].
+  split; [eexists; split; vm_compute; reflexivity|].
+  split; [vm_compute; reflexivity|].
+  split; vm_compute; reflexivity.
+Qed.
+
 (* ---------- the First-nesting limit of get_outlines: forests higher than OUTLINE_DEPTH_LIMIT + 1 ---------- *)
 Definition too_deep (f : list itree) : bool := (OUTLINE_DEPTH_LIMIT + 1 <? N.of_nat (fheight f))%N.
 
